@@ -54,6 +54,7 @@ type hcall struct {
 	handler  int
 	height   uint64
 	readable bool
+	failed   bool // the handler returned an error or panicked on this call
 }
 
 type storeRun struct {
@@ -111,7 +112,7 @@ func (r *storeRun) register(i int) {
 		cctx, cancel := context.WithCancel(ctx)
 		cancel()
 		h, err := r.st.GetByHeight(cctx, height)
-		r.calls = append(r.calls, hcall{i, height, err == nil && h != nil && h.H == height})
+		r.calls = append(r.calls, hcall{i, height, err == nil && h != nil && h.H == height, r.scripts[i][idx] != 0})
 		switch r.scripts[i][idx] {
 		case 'e':
 			return errors.New("scripted handler error")
@@ -322,6 +323,9 @@ func (r *storeRun) callsString() string {
 	s := make([]string, len(r.calls))
 	for i, c := range r.calls {
 		s[i] = fmt.Sprintf("%d@%d:%d", c.handler, c.height, b2i(c.readable))
+		if c.failed {
+			s[i] += ":e"
+		}
 	}
 	return strings.Join(s, ",")
 }
